@@ -688,3 +688,48 @@ def load_sources(repo: str = REPO) -> dict[str, str]:
                 with open(p, encoding='utf-8') as fh:
                     out[rel] = fh.read()
     return out
+
+
+def inline_locals(func_node: ast.AST, expr: ast.expr, depth: int = 6) -> ast.expr:
+    """Copy of expr in which every local of the function that is assigned exactly once (plain `x = <expr>` anywhere in the
+    function, no augmented assignment, not a parameter, not a loop target) is replaced by its definition, recursively.
+    Makes arithmetic rules independent of how intermediate results are named."""
+    import copy
+
+    a = func_node.args
+    params = {x.arg for x in a.posonlyargs + a.args + a.kwonlyargs} | ({a.vararg.arg} if a.vararg else set()) | ({a.kwarg.arg} if a.kwarg else set())
+    defs: dict[str, list] = {}
+    for n in walk_no_nested(func_node):
+        if isinstance(n, ast.Assign):
+            for t in n.targets:
+                for x in ast.walk(t):
+                    if isinstance(x, ast.Name):
+                        defs.setdefault(x.id, []).append(n if (isinstance(t, ast.Name) and len(n.targets) == 1) else None)
+        elif isinstance(n, (ast.AugAssign, ast.AnnAssign)):
+            for x in ast.walk(n.target):
+                if isinstance(x, ast.Name):
+                    defs.setdefault(x.id, []).append(n if isinstance(n, ast.AnnAssign) and n.value is not None and isinstance(n.target, ast.Name) else None)
+        elif isinstance(n, (ast.For, ast.comprehension)):
+            for x in ast.walk(n.target):
+                if isinstance(x, ast.Name):
+                    defs.setdefault(x.id, []).append(None)
+        elif isinstance(n, (ast.With,)):
+            for it in n.items:
+                if it.optional_vars is not None:
+                    for x in ast.walk(it.optional_vars):
+                        if isinstance(x, ast.Name):
+                            defs.setdefault(x.id, []).append(None)
+        elif isinstance(n, ast.NamedExpr):
+            defs.setdefault(n.target.id, []).append(None)
+    single = {k: v[0].value for k, v in defs.items() if len(v) == 1 and v[0] is not None and k not in params}
+
+    class Sub(ast.NodeTransformer):
+        def __init__(self, d):
+            self.d = d
+
+        def visit_Name(self, node):
+            if isinstance(node.ctx, ast.Load) and node.id in single and self.d > 0:
+                return Sub(self.d - 1).visit(copy.deepcopy(single[node.id]))
+            return node
+
+    return ast.fix_missing_locations(Sub(depth).visit(copy.deepcopy(expr)))
